@@ -478,6 +478,9 @@ func runConcCase(c *gal.Ctx, vets []*tpm.TPM) {
 			c.Count("cmd:" + cmdNames[cm.kind])
 		}
 	}
+	for _, r := range runs {
+		mergeDist(c, r.dist)
+	}
 }
 
 // closedSched runs the histories on NEW objects under the given decisions; if
@@ -619,5 +622,8 @@ func runParCase(c *gal.Ctx, vets []*tpm.TPM) {
 		for _, cm := range h {
 			c.Count("cmd:" + cmdNames[cm.kind])
 		}
+	}
+	for _, r := range runs {
+		mergeDist(c, r.dist)
 	}
 }
